@@ -74,7 +74,11 @@
 //! class now, and the model follows the repaired `check_and_record_ancestors`.
 //! Round 6 directed families in `gen_burst`: E (a spender and a dep user of the same cell pooled, a third
 //! spender committed), R (re-proposal around the block at which the first proposal leaves the window),
-//! T (parent and child committed in different blocks of an abandoned branch).
+//! T (parent and child committed in different blocks of an abandoned branch); `gen_paused`: paused submissions.
+//! SUSPECTED defect found in round 6 (counted until listed): `suspected-stale-submit-same-tip-unknown-input` /
+//! `suspected-input-unknown-since-same-tip-submit` — submit_entry re-checks the resolved transaction only when the tip
+//! moved; when the POOL lost the parent meanwhile (RBF replacement by a concurrent submission) the child is admitted
+//! with an unknown input and survives every later chain change (work/eng-C12/finding-same-tip-parent-replaced.ops).
 use crate::common::*;
 use crate::node::*;
 use ckb_app_config::{BlockAssemblerConfig, NetworkConfig, TxPoolConfig};
@@ -221,6 +225,9 @@ struct World {
     /// a local submission paused between its verification and `submit_entry` (round 6):
     /// (tid, the handle, the pool's tip at the pre-check, the stage the pre-check window gave the id)
     paused: Option<(usize, ckb_tx_pool::service::VerifPaused, Byte32, u8)>,
+    /// transactions admitted by a paused submission AT THE TIP OF ITS PRE-CHECK with an out-point that is neither
+    /// live nor created in the pool (the pool changed in between; submit_entry re-checks only when the tip moved)
+    same_tip_orphans: HashSet<usize>,
 }
 
 fn cap_of(tx: &TransactionView, i: usize) -> u64 {
@@ -254,7 +261,7 @@ impl World {
         let gcells = genesis_cells(&consensus);
         let mut block_ids = HashMap::new();
         block_ids.insert(consensus.genesis_hash(), 0);
-        World { dir, cfg, consensus, main, builder, txs: vec![], fees: vec![], code_cell: always_success_dep().out_point(), tid_by_short: HashMap::new(), tid_by_hash: HashMap::new(), gcells, block_ids, salt: 1000, ever_detached: HashSet::new(), expired_removed: HashSet::new(), dropped_detached: HashSet::new(), clock, guard, paused: None }
+        World { dir, cfg, consensus, main, builder, txs: vec![], fees: vec![], code_cell: always_success_dep().out_point(), tid_by_short: HashMap::new(), tid_by_hash: HashMap::new(), gcells, block_ids, salt: 1000, ever_detached: HashSet::new(), expired_removed: HashSet::new(), dropped_detached: HashSet::new(), clock, guard, paused: None, same_tip_orphans: HashSet::new() }
     }
 
     fn finish(self) {
@@ -576,6 +583,10 @@ fn after_chain_change(w: &mut World, out: &mut Out, pre: &Pre) {
         });
         if by_expiry {
             "input-of-expired-parent".to_string()
+        } else if w.same_tip_orphans.contains(&user) {
+            // SUSPECTED (round 6, reported to the coordinator, counted until listed): admitted by submit_entry at the
+            // tip of its pre-check after the pool had lost the creator (no re-check when the tip did not move)
+            "suspected-input-unknown-since-same-tip-submit".to_string()
         } else if by_detached_readd {
             // listed in known_findings.txt (round 5): reported under its listed name
             "input-of-parent-dropped-at-detached-proposal-readd".to_string()
@@ -789,7 +800,13 @@ fn release_paused(w: &mut World, out: &mut Out) {
         for op in tx.input_pts_iter().chain(tx.cell_deps_iter().map(|d| d.out_point())) {
             let src = w.tid_by_hash.get(&op.tx_hash()).cloned();
             if !src.map_or(false, |t| pooled.contains(&t)) && !snap.have_cell(&op) {
-                out.oracle_fail("stale-submit-dead-or-unknown-input", &format!("tx{tid} was admitted by a paused submission (tip changed: {tip_changed}) with out-point {} that is neither live nor created in the pool", w.op_code(&op)));
+                if tip_changed {
+                    out.oracle_fail("stale-submit-dead-or-unknown-input", &format!("tx{tid} was admitted by a paused submission after the tip changed with out-point {} that is neither live nor created in the pool", w.op_code(&op)));
+                } else {
+                    // SUSPECTED defect (counted until listed): the tip did not move, the POOL did; nothing is re-checked
+                    out.count("suspected-stale-submit-same-tip-unknown-input");
+                    w.same_tip_orphans.insert(tid);
+                }
             }
         }
         if tx.header_deps_iter().any(|h| !snap.is_main_chain(&h)) {
@@ -1545,7 +1562,7 @@ fn gen_paused(g: &mut Gen, rng: &mut Rng, w_close: u64, w_far: u64, m: u64) -> V
     let paused = |l: String| -> String { format!("p{l}") };
     let ext = w_close + 1;
     let fee = *rng.pick(&[1000u64, 2000, 5000]);
-    match rng.below(7) {
+    match rng.below(8) {
         0 => {
             // a foreign spender C of the same cell is committed while t is paused: t must be refused (dead input)
             let Some(x) = fresh(g, &[]) else { return lines };
@@ -1639,6 +1656,20 @@ fn gen_paused(g: &mut Gen, rng: &mut Rng, w_close: u64, w_far: u64, m: u64) -> V
             let Some(lt) = gen_emit(g, &ins, &[], 5000, 1, None) else { return lines };
             lines.push(paused(lt));
             lines.push(if rng.chance(1, 2) { "forkx 0 1 - -".to_string() } else { "mine".to_string() });
+        }
+        6 if rng.chance(1, 2) => {
+            // SUSPECTED defect: the parent P of the paused t is replaced through RBF by P' (same input, higher fee) at
+            // the SAME tip: submit_entry re-checks nothing and t is pooled with an input nobody creates
+            let Some(y) = fresh(g, &[]) else { return lines };
+            let Some(lp) = gen_emit(g, &[y], &[], 1000, 1, None) else { return lines };
+            let p = g.next_tid - 1;
+            lines.push(lp);
+            let Some(p0) = out0(g, p) else { return lines };
+            let Some(lt) = gen_emit(g, &[p0], &[], 2000, 1, None) else { return lines };
+            lines.push(paused(lt));
+            g.free.push(y);
+            let Some(lq) = gen_emit(g, &[y], &[], 100_000, 1, None) else { return lines };
+            lines.push(lq);
         }
         5 => {
             // released at the tip of its pre-check (nothing is re-checked)
